@@ -56,6 +56,9 @@ func (f *Logbitp) Call(s *slip.Scope, args slip.List, depth int) slip.Object {
 			if (uint64(ti)>>int(index))&0x01 == 1 {
 				return slip.True
 			}
+		} else if ti < 0 {
+			// Two's complement, the sign bit extends without limit.
+			return slip.True
 		}
 	case *slip.Bignum:
 		ba := (*big.Int)(ti).Bytes()
